@@ -11,8 +11,9 @@ V=$(cd "$(dirname "$0")/.." && pwd)
 SEED=${1:-1}
 B=$(dirname "$(rustup +nightly which rustc)")/../lib/rustlib/x86_64-unknown-linux-gnu/bin
 cd "$V/harness"
-RUSTFLAGS="-C instrument-coverage" CARGO_NET_OFFLINE=true cargo +nightly build --offline --release -p props --bin vprop --target-dir "$V/harness/target_cov" 2>&1 | tail -1
-rm -rf "$V/harness/cov"; mkdir -p "$V/harness/cov"
+mkdir -p "$V/harness/cov"
+LLVM_PROFILE_FILE="$V/harness/cov/build-%p.profraw" RUSTFLAGS="-C instrument-coverage" CARGO_NET_OFFLINE=true cargo +nightly build --offline --release -p props --bin vprop --target-dir "$V/harness/target_cov" 2>&1 | tail -1
+rm -f "$V"/harness/cov/*.profraw
 for p in C01 C02 C03 C04 C05 C06 C07 C08 C09 C10 C11 C12 C13 C14 C15 C16 C17 C18 C20; do
   LLVM_PROFILE_FILE="$V/harness/cov/$p-%p.profraw" VERIF_DIR="$V/harness/cov" "$V/harness/target_cov/release/vprop" $p --tier quick --seed "$SEED" --out "$V/harness/cov/$p.json" > /dev/null 2>&1 || echo "$p: exit $?"
 done
